@@ -27,7 +27,7 @@ RULE = ("case = (1-5 member configs from the full grid, each given as Indicator 
         "standalone twin (effective configuration, same schedule). non-trivial: (>= 2 members or a member on a collapsing timeframe) and "
         ">= 2 appends and >= 1 non-None reading. distinct: case digest.")
 ASSUMPTIONS = ["member timeframes are multiples of the Hexital-level timeframe (finer or non-nested ones are not resamplings of the base)",
-               "HA x gap filling is not combined", "lifespans are generous w.r.t. look-back (C15 precondition) so trimming never starves a reading"]
+               "lifespans are generous w.r.t. look-back (C15 precondition) so trimming never starves a reading"]
 
 
 def plan(tier):
@@ -52,7 +52,7 @@ def gen_case(rng, tier, idx):
         tf, tf_s, step, mode = None, None, rng.choice([1, 60, 300]), rng.choice(["regular", "regular", "dups"])
     unit = tf_s or step
     ha = rng.random() < 0.2
-    fill = (tf is not None or rng.random() < 0.5) and rng.random() < 0.3 and not ha
+    fill = (tf is not None or rng.random() < 0.5) and rng.random() < 0.3
     n = rng.randint(40, 160)
     if fill and tf is None:
         mode = "gaps"  # Hexital-level fill without a Hexital-level timeframe only matters to member timeframes, and only across gaps
